@@ -51,6 +51,14 @@ def gen_pool(rng, ks):
     return sorted(pool)
 
 
+class BytesSub(bytes):
+    """a bytes subclass (as hexbytes.HexBytes is): accepted wherever bytes are"""
+
+
+def _sub(b, selector):
+    return BytesSub(b) if selector % 3 == 0 else b
+
+
 def gen_cases(rng, tier):
     n = 200 if tier == "quick" else 4000
     for i in range(n):
@@ -169,12 +177,12 @@ def run_case(case):
         v = bytes.fromhex(op[2]) if len(op) > 2 else default
         try:
             if kind == "set":
-                ret = smt.set(k, v)
+                ret = smt.set(_sub(k, len(v)), _sub(v, len(k)))
             elif kind == "setitem":
                 smt[k] = v
                 ret = None
             elif kind == "del":
-                ret = smt.delete(k)
+                ret = smt.delete(_sub(k, 0 if k[:1] < b'\x80' else 1))
             else:
                 del smt[k]
                 ret = None
